@@ -366,6 +366,9 @@ func c17App(c *vc.Ctx, idx int) {
 		n := min(len(cases), 12)
 		var ws []*goattypes.WithdrawalRequest
 		for _, ac := range cases[:n] {
+			if ac.Str == "" {
+				continue // goat-geth's request codec cannot carry an empty address at the end of a list
+			}
 			ws = append(ws, &goattypes.WithdrawalRequest{Id: id, Amount: 100000, TxPrice: 10, Address: ac.Str})
 			want[id] = ac
 			id++
